@@ -65,7 +65,7 @@ def strategy_warmup():
             "mpd": mpd, "merge": draw(st.booleans()), "shapes": [draw(gen.st_shape(mpd)) for _ in range(k)],
             "dtype": draw(st.sampled_from(["f64", "f64", "f32"])), "seed": draw(st.integers(0, 10**6)), "masks": masks,
             "gkind": draw(st.sampled_from(gen.GRAD_KINDS)), "gscale": draw(st.sampled_from([1.0, 1.0, 1e-3, 30.0])),
-            "freq": draw(st.integers(1, 3)),
+            "freq": draw(st.integers(1, 3)), "playout": draw(st.sampled_from([False, False, False, True])),
         }
 
     return case()
@@ -80,6 +80,21 @@ def oracle_warmup(case: dict) -> Outcome:
     dt = gen.DT[c["dtype"]]
     k = c["kind"]
     P0 = [gen.make_tensor(s, "gauss", c["seed"] * 31 + i, 1.0, dt) for i, s in enumerate(c["shapes"])]
+    if c.get("playout"):
+        # the same values in a non-row-major memory layout (transposed weight, channels_last kernel) wherever the optimizer's view of the merged
+        # dims is legal for such a tensor; torch.optim is layout-agnostic, so the trajectories must still agree
+        for i, t in enumerate(P0):
+            if t.dim() >= 2:
+                rev = list(range(t.dim()))[::-1]
+                t2 = t.permute(*rev).contiguous().permute(*rev)
+                md_ = tuple(rm.merge_dims(tuple(t.shape), c["mpd"], True)) if c["merge"] else tuple(t.shape)
+                try:
+                    t2.view(md_)
+                except RuntimeError:
+                    continue
+                if not t2.is_contiguous():
+                    P0[i] = t2
+                    out.classes.append("non_row_major_parameter")
     pa = [torch.nn.Parameter(p.clone()) for p in P0]
     pb = [torch.nn.Parameter(p.clone()) for p in P0]
     common = dict(lr=c["lr"], epsilon=1e-12, max_preconditioner_dim=c["mpd"], use_merge_dims=c["merge"], precondition_frequency=c["freq"],
